@@ -6,7 +6,7 @@ use ndarray_stats::SummaryStatisticsExt;
 
 /// Integers (i32 from i8 payloads, so nothing overflows), R x C, data and weights in
 /// independently chosen layouts; whole-array and per-axis forms against explicit-index oracles.
-fn int_sums_2d<const R: usize, const C: usize, const RC: usize>(ld: u8, lw: u8) {
+fn int_sums_2d<const R: usize, const C: usize, const RC: usize>(ld: u8, lw: u8, part: u8) {
     let pd: [i8; RC] = kani::any();
     let pw: [i8; RC] = kani::any();
     let mut d = [0i32; RC];
@@ -31,10 +31,11 @@ fn int_sums_2d<const R: usize, const C: usize, const RC: usize>(ld: u8, lw: u8) 
         wsum += w[k];
         k += 1;
     }
-    assert!(SummaryStatisticsExt::mean(&a) == Ok(s / (RC as i32)), "mean == exact sum / n (the type's own division)");
-    assert!(a.weighted_sum(&wt) == Ok(ws), "weighted_sum pairs data and weights by logical index");
-    if wsum != 0 {
-        assert!(a.weighted_mean(&wt) == Ok(ws / wsum), "weighted_mean == weighted_sum / sum of weights");
+    if part == 0 {
+        assert!(SummaryStatisticsExt::mean(&a) == Ok(s / (RC as i32)), "mean == exact sum / n (the type's own division)");
+        assert!(a.weighted_sum(&wt) == Ok(ws), "weighted_sum pairs data and weights by logical index");
+        kani::cover!(pd[0] == 127 && pw[0] == 127 && pw[1] == 1, "W: large product");
+        return;
     }
     // per-axis forms with 1-D weights taken from the first column / first row of the weight payloads
     let mut w0 = [0i32; R]; // weights along Axis(0): one per row
@@ -66,14 +67,6 @@ fn int_sums_2d<const R: usize, const C: usize, const RC: usize>(ld: u8, lw: u8) 
         assert!(col.weighted_sum(&w0v) == Ok(o), "per-axis element == whole-array routine on that lane");
         j += 1;
     }
-    if w0sum != 0 {
-        let m0 = a.weighted_mean_axis(Axis(0), &w0v).unwrap();
-        let mut j = 0;
-        while j < C {
-            assert!(m0[j] == r0[j] / w0sum, "weighted_mean_axis divides by the sum of the weights (not the lane length)");
-            j += 1;
-        }
-    }
     let mut w1 = [0i32; C]; // weights along Axis(1): one per column
     let mut j = 0;
     while j < C {
@@ -95,33 +88,69 @@ fn int_sums_2d<const R: usize, const C: usize, const RC: usize>(ld: u8, lw: u8) 
         assert!(r1[i] == o, "weighted_sum_axis(Axis(1))[i] == weighted sum of row i");
         i += 1;
     }
-    kani::cover!(pd[0] == 127 && pw[0] == 127 && pw[1] == 1, "W: large product");
-    kani::cover!(pw[0] == 1 && pw[1] == -1 && pw[2] == 0 && pw[3] == 0 && pw[4] == 0 && pw[5] == 0, "W: weights cancelling to zero");
+    kani::cover!(pd[0] == 127 && pw[0] == 127 && pw[1] == 1, "W: large product (axis part)");
 }
 
-//@ prop=C06,C18,C20 tier=quick mem=5 timeout=3000 inst="ArrayView2<i32> 2x3; data F-order, weights C-order" bounds="all i8-range payloads; unwind 10" cbmc="--unwindset memcmp.0:33"
+/// weighted_mean / weighted_mean_axis divide by the SUM OF THE WEIGHTS (the type's own integer
+/// division). Symbolic 32-bit division is expensive for the SAT back end, so 4-bit payloads.
+//@ prop=C06,C20:thorough tier=quick mem=4 timeout=2400 inst="weighted_mean on ArrayView2<i32> 2x2 (data F-order, weights C-order) and weighted_mean_axis(Axis(0))" bounds="payloads in -8..=7, sum of weights != 0; unwind 8"
+#[kani::proof]
+#[kani::unwind(8)]
+fn c06_weighted_mean_small() {
+    let pd: [i8; 4] = kani::any();
+    let pw: [i8; 4] = kani::any();
+    let mut d = [0i32; 4];
+    let mut w = [0i32; 4];
+    let mut k = 0;
+    while k < 4 {
+        kani::assume(pd[k] >= -8 && pd[k] <= 7 && pw[k] >= -8 && pw[k] <= 7);
+        d[k] = pd[k] as i32;
+        w[k] = pw[k] as i32;
+        k += 1;
+    }
+    let ws = d[0] * w[0] + d[1] * w[1] + d[2] * w[2] + d[3] * w[3];
+    let wsum = w[0] + w[1] + w[2] + w[3];
+    let pdat = parent2(&d, 2, 2, 1, 0i32);
+    let pwt = parent2(&w, 2, 2, 0, 0i32);
+    let a = view2(&pdat, 1);
+    let wt = view2(&pwt, 0);
+    if wsum != 0 {
+        assert!(a.weighted_mean(&wt) == Ok(ws / wsum), "weighted_mean == weighted_sum / sum of weights");
+    }
+    // per-axis: weights w[0], w[2] along Axis(0)
+    let w0 = Array1::from(vec![w[0], w[2]]);
+    let w0v = w0.view();
+    let s0 = w[0] + w[2];
+    if s0 != 0 {
+        let m = a.weighted_mean_axis(Axis(0), &w0v).unwrap();
+        assert!(m[0] == (d[0] * w[0] + d[2] * w[2]) / s0 && m[1] == (d[1] * w[0] + d[3] * w[2]) / s0, "weighted_mean_axis divides by the sum of the weights (not the lane length)");
+    }
+    kani::cover!(pw[0] == 3 && pw[2] == 4 && pd[0] == 7 && pd[2] == -8, "W: non-trivial weights");
+}
+
+//@ prop=C06,C18,C20 tier=quick mem=5 timeout=3000 inst="mean / weighted_sum on ArrayView2<i32> 2x3; data F-order, weights C-order" bounds="all i8-range payloads; unwind 10" cbmc="--unwindset memcmp.0:33"
 #[kani::proof]
 #[kani::unwind(10)]
 fn c06_int_sums_2x3_f_c() {
-    int_sums_2d::<2, 3, 6>(1, 0);
+    int_sums_2d::<2, 3, 6>(1, 0, 0);
 }
-//@ prop=C06,C18:thorough,C20:thorough tier=quick mem=5 timeout=3000 inst="ArrayView2<i32> 2x3; data stepped, weights both axes reversed" bounds="all i8-range payloads; unwind 10" cbmc="--unwindset memcmp.0:33"
+//@ prop=C06,C18:thorough,C20:thorough tier=quick mem=5 timeout=3000 inst="weighted_sum_axis (both axes) vs explicit oracle and vs lane-wise weighted_sum on ArrayView2<i32> 2x3 stepped" bounds="all i8-range payloads; unwind 10" cbmc="--unwindset memcmp.0:33"
 #[kani::proof]
 #[kani::unwind(10)]
 fn c06_int_sums_2x3_step_rev() {
-    int_sums_2d::<2, 3, 6>(2, 3);
+    int_sums_2d::<2, 3, 6>(2, 3, 1);
 }
-//@ prop=C06,C18,C20 tier=thorough mem=5 timeout=3600 inst="ArrayView2<i32> 3x2; data F-order rows reversed, weights stepped" bounds="all i8-range payloads; unwind 10" cbmc="--unwindset memcmp.0:33"
+//@ prop=C06,C18,C20 tier=thorough mem=5 timeout=3600 inst="mean / weighted_sum on ArrayView2<i32> 3x2; data F-order rows reversed, weights stepped" bounds="all i8-range payloads; unwind 10" cbmc="--unwindset memcmp.0:33"
 #[kani::proof]
 #[kani::unwind(10)]
 fn c06_int_sums_3x2_frev_step() {
-    int_sums_2d::<3, 2, 6>(4, 2);
+    int_sums_2d::<3, 2, 6>(4, 2, 0);
 }
-//@ prop=C06,C18,C20 tier=thorough mem=5 timeout=3600 inst="ArrayView2<i32> 3x2; data C-order, weights F-order" bounds="all i8-range payloads; unwind 10" cbmc="--unwindset memcmp.0:33"
+//@ prop=C06,C18,C20 tier=thorough mem=5 timeout=3600 inst="weighted_sum_axis (both axes) on ArrayView2<i32> 3x2 C-order" bounds="all i8-range payloads; unwind 10" cbmc="--unwindset memcmp.0:33"
 #[kani::proof]
 #[kani::unwind(10)]
 fn c06_int_sums_3x2_c_f() {
-    int_sums_2d::<3, 2, 6>(0, 1);
+    int_sums_2d::<3, 2, 6>(0, 1, 1);
 }
 
 /// 1-D integer lanes carved from buffers (stride / reversal).
